@@ -438,7 +438,7 @@ func c11TryAgain(c *Ctx, r *Report, rule string) {
 		return
 	}
 	sc := &Scenario{Name: "pacing", MaxVisit: 3,
-		Params: map[string]SV{"p0": symRef("ctx", false), "p1": {K: "struct", Desc: "start"}},
+		ByType: map[string]SV{"caddy/v2.Context": symRef("ctx", false), "time.Time": {K: "struct", Desc: "start"}},
 		Heap:   map[string]SV{"recv.TryDuration": {K: "int", Desc: "lb.TryDuration"}, "recv.TryInterval": {K: "int", Desc: "lb.TryInterval"}},
 	}
 	sc.Call = func(callee string, args []SV, ev *symEval, st *symState) (SV, bool) {
